@@ -96,6 +96,18 @@ func genScript(r *gen.Rand, w *gen.Writer, safe bool) script {
 		}
 		w.Count("script-oldinput")
 	}
+	s.wipos = len(s.flashes)
+	if len(s.olds) > 0 && len(s.flashes) > 0 {
+		// WithInput() anywhere in the With chain; a With key may equal an old-input key
+		if r.Bool() {
+			s.wipos = r.Intn(len(s.flashes) + 1)
+			w.Count("script-withinput-early")
+		}
+		if r.Chance(1, 2) {
+			s.flashes[r.Intn(len(s.flashes))].key = s.olds[r.Intn(len(s.olds))][0]
+			w.Count("script-key-collides-with-input")
+		}
+	}
 	if len(s.flashes) == 0 && len(s.olds) == 0 {
 		w.Count("script-empty")
 	}
